@@ -916,8 +916,22 @@ func (vfs *MemFS) Rename(oldpath, newpath string) error {
 		}
 	}
 
+	// Directories are always locked from the root to the leaves (as an open directory
+	// that is read locks itself then its entries) : if the new parent is an ancestor
+	// of the old one, it is locked first.
+	nDir := strings.TrimSuffix(vfs.Dir(nPI.Path()), string(vfs.PathSeparator())) + string(vfs.PathSeparator())
+	if nParent != oParent && strings.HasPrefix(oPI.Path(), nDir) {
+		nParent.mu.Lock()
+		defer nParent.mu.Unlock()
+	}
+
 	oParent.mu.Lock()
 	defer oParent.mu.Unlock()
+
+	if nParent != oParent && !strings.HasPrefix(oPI.Path(), nDir) {
+		nParent.mu.Lock()
+		defer nParent.mu.Unlock()
+	}
 
 	if !oParent.checkPermission(avfs.OpenWrite, vfs.User()) {
 		return &os.LinkError{Op: op, Old: oldpath, New: newpath, Err: vfs.err.PermDenied}
@@ -927,13 +941,8 @@ func (vfs *MemFS) Rename(oldpath, newpath string) error {
 		return &os.LinkError{Op: op, Old: oldpath, New: newpath, Err: vfs.err.OpNotPermitted}
 	}
 
-	if nParent != oParent {
-		nParent.mu.Lock()
-		defer nParent.mu.Unlock()
-
-		if !nParent.checkPermission(avfs.OpenWrite, vfs.User()) {
-			return &os.LinkError{Op: op, Old: oldpath, New: newpath, Err: vfs.err.PermDenied}
-		}
+	if nParent != oParent && !nParent.checkPermission(avfs.OpenWrite, vfs.User()) {
+		return &os.LinkError{Op: op, Old: oldpath, New: newpath, Err: vfs.err.PermDenied}
 	}
 
 	if nChild != nil && !nParent.checkSticky(nChild, vfs.User()) {
